@@ -29,7 +29,7 @@
 #define NM_XTOL   1e-14
 #define NM_ITER   20000
 
-static long ncases(int tier) { return tier ? 150000 : 12000; }
+static long ncases(int tier) { return tier ? 2000000 : 100000; }
 
 /* ------------------------------------------------------------------ helpers */
 static matrix *out_matrix(vh_ctx *c, size_t r, size_t k)
@@ -460,7 +460,8 @@ static void group_area(vh_ctx *c)
 }
 
 /* ------------------------------------------------------------------ simplex */
-static struct { size_t n; double A[6][6], xs[6], f0; long evals; } Q;
+#define NM_HIST 4096
+static struct { size_t n; double A[6][6], xs[6], f0; long evals; double hx[NM_HIST][6], hf[NM_HIST]; } Q;   /* ring of the last evaluations */
 
 static double quad_eval(const double *x)
 {
@@ -468,7 +469,27 @@ static double quad_eval(const double *x)
   for (i = 0; i < Q.n; i++) { double r = 0; for (j = 0; j < Q.n; j++) r += Q.A[i][j] * (x[j] - Q.xs[j]); s += (x[i] - Q.xs[i]) * r; }
   return Q.f0 + 0.5 * s;
 }
-static double quad_cb(dvector *x) { Q.evals++; return quad_eval(x->data); }
+static double quad_cb(dvector *x)
+{
+  double f = quad_eval(x->data);
+  size_t k = (size_t)(Q.evals % NM_HIST), i;
+  for (i = 0; i < Q.n; i++) Q.hx[k][i] = x->data[i];
+  Q.hf[k] = f;
+  Q.evals++;
+  return f;
+}
+/* number of distinct evaluated points (among the last NM_HIST) whose objective value is within tol of f */
+static size_t quad_level_points(double f, double tol)
+{
+  size_t m = (size_t)(Q.evals < NM_HIST ? Q.evals : NM_HIST), a, b, cnt = 0;
+  for (a = 0; a < m; a++) {
+    int dup = 0;
+    if (!(fabs(Q.hf[a] - f) < tol)) continue;
+    for (b = 0; b < a && !dup; b++) if (fabs(Q.hf[b] - f) < tol && !memcmp(Q.hx[a], Q.hx[b], sizeof(double) * Q.n)) dup = 1;
+    if (!dup) cnt++;
+  }
+  return cnt;
+}
 
 static void group_simplex(vh_ctx *c)
 {
@@ -527,9 +548,14 @@ static void group_simplex(vh_ctx *c)
   { long b = 0; while ((1L << b) < Q.evals) b++; vh_hist("simplex_evaluations_log2", b); }
   vh_obs("simplex_objective_evaluations", (double)Q.evals);
   if (!(dist <= 1e-4 * (1 + xsn))) {
-    char key[128];
-    snprintf(key, sizeof key, "NelderMeadSimplex|convergence|%s", lattice ? "exact-ties-possible" : "general-position");
-    vh_fail(c, key, "|best - x*| = %.3g > 1e-4 (1 + |x*|) = %.3g after %ld objective evaluations (dim %zu, kappa %.3g, f - f* = %.3g)", dist, 1e-4 * (1 + xsn), Q.evals, n, kappa, res - Q.f0);
+    /* three mechanisms, three keys: the whole iteration budget was used (a stalled iteration looks like this); the routine
+       stopped early although n+1 distinct vertices it evaluated sit on one level set (its only stopping test is the spread
+       of the objective over the simplex, which is then 0 on a simplex of any size); anything else */
+    size_t lvl = quad_level_points(res, NM_XTOL);
+    const char *key = Q.evals >= NM_ITER ? "NelderMeadSimplex|convergence|iteration-budget-exhausted"
+                    : lvl >= n + 1 ? "NelderMeadSimplex|convergence|stopped-early-with-zero-f-spread"
+                    : "NelderMeadSimplex|convergence";
+    vh_fail(c, key, "|best - x*| = %.3g > 1e-4 (1 + |x*|) = %.3g after %ld objective evaluations (dim %zu, kappa %.3g, %s family, f - f* = %.3g, %zu distinct evaluated points with the returned value)", dist, 1e-4 * (1 + xsn), Q.evals, n, kappa, lattice ? "lattice" : "general-position", res - Q.f0, lvl);
   }
   vh_obs("simplex_runs_judged", 1);
 out:
